@@ -186,6 +186,13 @@ def si_histories(run, tier, rng):
         L_ = M_ + S_ - 1
         for D_ in sorted({L_, gen_mc.nextpow2(L_)}):
             cfgs.append(dict(style="centered", S=S_, M=M_, T=M_ // 2, D=D_, left=-(M_ // 2), length=M_))
+    # causal computers whose padded DFT is much longer than a frame (the block transformed first still holds several
+    # samples of whatever was in the buffer before)
+    for (S_, M_) in ((1, 5), (2, 8), (3, 9)):
+        L_ = M_ + S_ - 1
+        c_ = dict(style="causal", S=S_, M=M_, T=0, D=gen_mc.nextpow2(L_), left=0, length=M_)
+        if c_ not in cfgs:
+            cfgs.append(c_)
     traces, meta, tid = [], {}, 0
     for c in cfgs:
         taps = [list(nprng.randint(-3, 4, size=c["length"]).astype(float) + 0.5)]
@@ -193,11 +200,14 @@ def si_histories(run, tier, rng):
             taps[0][-1] = 0.0
         S, D = c["S"], c["D"]
         alpha = [("chunk", 0), ("chunk", 1), ("chunk", S), ("chunk", D), ("chunk", 2 * D + 1), ("finalize",),
-                 ("full", 0), ("full", S + 1), ("full", 2 * D), ("chunk32", 2)]
+                 ("full", 0), ("full", S + 1), ("full", 2 * D), ("chunk32", 2),
+                 ("chunkint", 2),    # integer samples: refused (documented), and a refusal changes nothing
+                 ("loud", 2 * D + 1), ("loud", 3), ("loud", max(2, D - 2))]  # utterances a million times louder than the next one
         hists = [list(h) for d in range(1, 3) for h in itertools.product(alpha, repeat=d)]
         for _ in range(40 if tier == "quick" else 300):
             hists.append([rng.choice(alpha) for _ in range(10)])
-        probe = [("chunk", 1), ("chunk", D), ("chunk", 0), ("chunk", S + 1), ("finalize",)]
+        # (single samples first: the first DFT block of the probe then still holds whatever the buffer held before)
+        probe = [("chunk", 1)] * (D + S) + [("chunk", D), ("chunk", 0), ("chunk", S + 1), ("finalize",)]
         for h in hists:
             comp = si_model.make_si(c, taps, use_power=True, use_log=False)
             rec = si_model.SiRecorder(comp)
@@ -206,6 +216,19 @@ def si_histories(run, tier, rng):
                 if op[0] == "chunk32":
                     x = nprng.randn(op[1]).astype(np.float32)
                     rec.call("chunk", x)
+                    if not rec.events[-1]["err"]:
+                        inprog = True
+                    continue
+                if op[0] == "chunkint":
+                    rec.call("chunk", np.arange(op[1], dtype=np.int64))
+                    if not rec.events[-1]["err"]:
+                        run.violation({"kind": "si_integer_chunk_not_refused", "cfg": c, "history": [list(o) for o in h]})
+                    if rec.events[-1]["st"] != inprog:
+                        run.violation({"kind": "si_started_flag_wrong", "cfg": c, "history": [list(o) for o in h], "after": list(op),
+                                       "started": rec.events[-1]["st"], "expected": inprog})
+                    continue
+                if op[0] == "loud":
+                    rec.call("chunk", nprng.randn(op[1]) * 1e6)
                     if not rec.events[-1]["err"]:
                         inprog = True
                     continue
